@@ -28,7 +28,8 @@ LEVEL_TEXT = ("Hundreds (quick) / thousands (thorough) of random call histories 
               "between, and once in a fresh interpreter; all digests must agree.  Consecutive unseeded sampling calls must differ.")
 LEVEL_NOTE = "Histories are sampled (length 5-12); the alphabet of perturbations is the checker's."
 RULE = ("cases: (target call with arguments and seed, perturbation program).  distinct = distinct canonical case; non-trivial = the "
-        "program contains at least one perturbation that reseeds or advances numpy's global generator")
+        "program contains at least one perturbation that reseeds or advances numpy's global generator"
+        ' Also: numpy-integer and positional seeds, one-variable models, dag_avg_deg up to k = p-1, calls on the *same object* with the same seed and targets but other parameter values before and between the judged calls, failing library calls as perturbations, comparison with a freshly built twin, 150-call histories.')
 ASSUMPTIONS = ["bit-identity is judged on SHA-256 of (dtype, shape, bytes) of every returned array / nested list"]
 EXHAUSTIVE = {"quick": False, "thorough": False}
 SOFT_LIMIT = {"quick": 240, "thorough": 1500}
